@@ -10,6 +10,9 @@ import FwdVerif.Driver.C20
 import FwdVerif.Driver.C03
 import FwdVerif.Driver.C08
 import FwdVerif.Driver.C18
+import FwdVerif.Driver.C19
+import FwdVerif.Driver.C14
+import FwdVerif.Driver.C07
 
 open FwdVerif
 
@@ -23,6 +26,9 @@ def dispatch (line : String) : String :=
   | "C03" :: rest => C03.handle rest
   | "C08" :: rest => C08.handle rest
   | "C18" :: rest => C18.handle rest
+  | "C19" :: rest => C19.handle rest
+  | "C14" :: rest => C14.handle rest
+  | "C07" :: rest => C07.handle rest
   | ["ping"] => "pong"
   | _ => "bad-op"
 
